@@ -203,7 +203,7 @@ def gen_schedule(rng):
         err_data += b"E" * rng.choice([8191, 8200, 30000])
     outs = split_bytes(data, rng, npolls)
     errs = split_bytes(err_data, rng, npolls)
-    timeout = rng.choice([None, 5, 5, 10])
+    timeout = rng.choice([None, 5, 5, 10, 0])
     status = rng.choice([0, 0, 1, 2, 127, 255, -9, -15])
     sched = []
     clock = 0
@@ -323,7 +323,11 @@ sys.exit(7)
 """
 
 
-def limit_case(rng, res):
+LIMIT_GRID = [(0, 0.6, True, False), (0.0, 0.6, True, False), (0, 0.6, False, False), (0.2, 2.5, True, True), (0.2, 2.5, False, False),
+              (20, 0.1, True, False), (0.0, 0.6, False, False), (0.2, 2.5, True, False)]
+
+
+def limit_case(rng, res, fixed=None):
     """The time limit as the public entry point hands it on: `in_toto_run(..., timeout=t)` with t = 0, 0.0 (limits like any
     other: shorter than every run), a limit the command outlives, and one it does not; with and without stream
     recording. A command that outlives its limit must be killed (it never reaches its last statement) and reported as
@@ -334,6 +338,8 @@ def limit_case(rng, res):
     streams = rng.random() < 0.5
     # a command that ignores every signal a process can ignore: it must be *killed* at the limit, not asked to stop
     ignore = limit == 0.2 and rng.random() < 0.7
+    if fixed is not None:
+        limit, dur, streams, ignore = fixed
     tmp = tempfile.mkdtemp(prefix="verif-c13l-")
     marker = os.path.join(tmp, "marker")
     old_tmp, cwd = tempfile.tempdir, os.getcwd()
@@ -390,7 +396,7 @@ def shard_real(seed, idx, n):
     rng = core.rng_for(seed, "c13", "real", idx)
     for _ in range(n):
         real_child_case(rng, res)
-    limit_case(rng, res)
+    limit_case(rng, res, fixed=LIMIT_GRID[idx % len(LIMIT_GRID)])       # (every combination once per run, whatever the seed)
     return res
 
 
